@@ -838,6 +838,11 @@ func (g *gen) nilHarnesses(m *Message) {
 	g.p("\tvhAssert(\"size.zero\", sz == 0)")
 	g.p("\tout, err := methods.Marshal(protoiface.MarshalInput{Message: m})")
 	g.p("\tvhAssert(\"marshal.empty\", err == nil && len(out.Buf) == 0)")
+	g.p("\t// appending the (empty) encoding of a nil message keeps the caller's bytes")
+	g.p("\tpre := vhBytes(\"pre\", 3)")
+	g.p("\tout2, err2 := methods.Marshal(protoiface.MarshalInput{Message: m, Buf: pre})")
+	g.p("\tvhAssert(\"marshal.append.err\", err2 == nil)")
+	g.p("\tvhAssertBytesEq(\"marshal.append.prefix\", out2.Buf, pre)")
 	g.p("\t// getters on a nil receiver")
 	for _, f := range m.All {
 		if f.Kind == "message" && f.MsgName == "" {
